@@ -25,6 +25,7 @@
 int      vs_atomic_points, vs_alloc_points, vs_unlock_points, vs_io_points, vs_io_maxclamp, vs_io_eagain;
 int      vs_tcp_grace_us;
 uint32_t vs_random_seed;
+int      vs_gai_fail_left, vs_gai_calls;
 int      vs_in_child;
 long     vs_io_calls;
 
